@@ -9,7 +9,7 @@ PROOF_MODULES = ["VncProofs.C17", "VncProofs.Framing", "VncProofs.Forever", "Vnc
 THEOREMS = ["Vnc.C16_progress", "Vnc.C16_no_spin", "Vnc.C17_chunk_independent", "Vnc.C17_chunkings", "Vnc.C17_prompt", "Vnc.C17_message", "Vnc.C17_messages",
             "Vnc.C17_handshake", "Vnc.C17_session", "Vnc.C17_record_key", "Vnc.C17_record_pointer", "Vnc.C17_clicks", "Vnc.C17_record_other", "Vnc.C17_fmt",
             "Vnc.C17_key_token", "Vnc.C16_type_len", "Vnc.proxy_type_len", "Vnc.Forever_own_script", "Vnc.Forever_names_unique", "Vnc.Forever_closed_final", "Vnc.Forever_name_second", "Vnc.Forever_old_loses",
-            "Vnc.toV_wire", "Vnc.toV_wf", "Vnc.Bridge_messages", "Vnc.Bridge_session", "Vnc.Bridge_events"]
+            "Vnc.toV_wire", "Vnc.toV_wf", "Vnc.Bridge_messages", "Vnc.Bridge_session", "Vnc.Bridge_no_raise", "Vnc.Bridge_events"]
 TRUSTED = [
     'VncModel/Forever.lean (the factory of `vnclog --forever`: connections, per-connection files, names) is tied to VNCLoggingServerFactory by the forever leg of this run (file names and contents after schedules of 1-3 viewers); files and time.strftime are modelled: a name is the second of the connect time plus a suffix, a write to a closed file raises',
     "Lean 4.33 kernel; standard axioms only",
